@@ -9,21 +9,40 @@
 (* initialised message-info pointer of embedded standard-library messages  *)
 (* (atomic load; if nil, atomic store of the one possible value).          *)
 (*                                                                         *)
+(* The readers may also share a VIEW OBJECT taken from the message once    *)
+(* (`v := m.Get(fd).Map()`): goroutine V ranges over it.  A view is a      *)
+(* pointer to the map plus nothing else; in the VIEWCACHE variant it also  *)
+(* keeps the keys of its last Range (collected when their number differs   *)
+(* from the map's), which makes the first Range on a view a write: the     *)
+(* collection is several plain stores (truncate, then one append per key)  *)
+(* that another reader of the same view can interleave with.               *)
+(*                                                                         *)
 (*   NoSharedWrite      no read operation writes non-atomic shared state   *)
 (*   ResultsSequential  every finished operation returns what it would     *)
 (*                      return when run alone                              *)
+(*   ViewRangeExact     a finished Range over the shared view visited      *)
+(*                      every key of the map exactly once                  *)
 (* TLC explores every interleaving of the per-field steps.  CACHING = TRUE *)
-(* must violate NoSharedWrite (non-vacuity, `verif selftest`).             *)
+(* must violate NoSharedWrite, VIEWCACHE = TRUE must violate NoSharedWrite *)
+(* and ViewRangeExact (non-vacuity, `verif selftest`).                     *)
 (***************************************************************************)
 EXTENDS Naturals, Sequences, FiniteSets, TLC, IOUtils
 
 CACHING == IF "VERIF_CACHING" \in DOMAIN IOEnv THEN IOEnv.VERIF_CACHING = "1" ELSE FALSE
+VIEWCACHE == IF "VERIF_VIEWCACHE" \in DOMAIN IOEnv THEN IOEnv.VERIF_VIEWCACHE = "1" ELSE FALSE
 N == 3
 Fields == <<3, 5, 7>>            \* the shared message: per-field contributions
 OpsOf == <<"size", "marshal", "range">>   \* operation of goroutine p
+\* two more goroutines share one map view and range over it
+Viewers == {4, 5}
+MapKeys == <<11, 12>>            \* the keys of the map behind the view, in the order a Range meets them
 
-VARIABLES pc, acc, cache, writes, mi, ended
-vars == <<pc, acc, cache, writes, mi, ended>>
+VARIABLES pc, acc, cache, writes, mi, ended,
+          vkeys,     \* VIEWCACHE: the keys kept inside the shared view object
+          vpc,       \* per viewer: "start" | "collect" | "iterate" | "done"
+          vi,        \* per viewer: position in the collection / iteration
+          visited    \* per viewer: the keys its callback was called with
+vars == <<pc, acc, cache, writes, mi, ended, vkeys, vpc, vi, visited>>
 
 RECURSIVE SumTo(_)
 SumTo(k) == IF k = 0 THEN 0 ELSE Fields[k] + SumTo(k - 1)
@@ -35,6 +54,10 @@ Init == /\ pc = [p \in 1..N |-> 0]
         /\ writes = 0
         /\ mi = "nil"
         /\ ended = [p \in 1..N |-> FALSE]
+        /\ vkeys = <<>>
+        /\ vpc = [v \in Viewers |-> "start"]
+        /\ vi = [v \in Viewers |-> 0]
+        /\ visited = [v \in Viewers |-> <<>>]
 
 \* one atomic read of the next field; the first step also touches the embedded message's
 \* lazily initialised info pointer (atomic load, atomic store if still nil)
@@ -43,7 +66,7 @@ Step(p) ==
     /\ pc' = [pc EXCEPT ![p] = @ + 1]
     /\ acc' = [acc EXCEPT ![p] = @ + Fields[pc[p] + 1]]
     /\ mi' = IF pc[p] = 0 /\ mi = "nil" THEN "set" ELSE mi
-    /\ UNCHANGED <<cache, writes, ended>>
+    /\ UNCHANGED <<cache, writes, ended, vkeys, vpc, vi, visited>>
 
 End(p) ==
     /\ pc[p] = Len(Fields) /\ ~ended[p]
@@ -51,12 +74,51 @@ End(p) ==
     /\ IF CACHING /\ OpsOf[p] = "size"
        THEN cache' = acc[p] /\ writes' = writes + 1       \* a plain (non-atomic) store into the message
        ELSE UNCHANGED <<cache, writes>>
-    /\ UNCHANGED <<pc, acc, mi>>
+    /\ UNCHANGED <<pc, acc, mi, vkeys, vpc, vi, visited>>
 
-Next == \E p \in 1..N : Step(p) \/ End(p)
+\* ---- Range over the shared view ----
+\* without the cache a Range iterates the map itself: one callback per key
+\* with it: compare lengths; if they differ, truncate the kept keys (a store) and go collecting
+VStart(v) ==
+    /\ vpc[v] = "start"
+    /\ IF VIEWCACHE /\ Len(vkeys) # Len(MapKeys)
+       THEN /\ vkeys' = <<>> /\ writes' = writes + 1
+            /\ vpc' = [vpc EXCEPT ![v] = "collect"]
+       ELSE /\ UNCHANGED <<vkeys, writes>>
+            /\ vpc' = [vpc EXCEPT ![v] = "iterate"]
+    /\ vi' = [vi EXCEPT ![v] = 0]
+    /\ UNCHANGED <<pc, acc, cache, mi, ended, visited>>
+
+\* one append per key of the map (a plain store into the view)
+VCollect(v) ==
+    /\ vpc[v] = "collect"
+    /\ IF vi[v] < Len(MapKeys)
+       THEN /\ vkeys' = Append(vkeys, MapKeys[vi[v] + 1]) /\ writes' = writes + 1
+            /\ vi' = [vi EXCEPT ![v] = @ + 1]
+            /\ UNCHANGED vpc
+       ELSE /\ vpc' = [vpc EXCEPT ![v] = "iterate"]
+            /\ vi' = [vi EXCEPT ![v] = 0]
+            /\ UNCHANGED <<vkeys, writes>>
+    /\ UNCHANGED <<pc, acc, cache, mi, ended, visited>>
+
+\* the keys iterated: the kept ones (as they are NOW) in the variant, the map's otherwise
+IterKeys == IF VIEWCACHE THEN vkeys ELSE MapKeys
+VIterate(v) ==
+    /\ vpc[v] = "iterate"
+    /\ IF vi[v] < Len(IterKeys)
+       THEN /\ visited' = [visited EXCEPT ![v] = Append(@, IterKeys[vi[v] + 1])]
+            /\ vi' = [vi EXCEPT ![v] = @ + 1]
+            /\ UNCHANGED vpc
+       ELSE /\ vpc' = [vpc EXCEPT ![v] = "done"]
+            /\ UNCHANGED <<visited, vi>>
+    /\ UNCHANGED <<pc, acc, cache, writes, mi, ended, vkeys>>
+
+Next == \/ \E p \in 1..N : Step(p) \/ End(p)
+        \/ \E v \in Viewers : VStart(v) \/ VCollect(v) \/ VIterate(v)
 Spec == Init /\ [][Next]_vars
 
 NoSharedWrite == writes = 0
 ResultsSequential == \A p \in 1..N : ended[p] => acc[p] = SeqResult
 InfoInitOnce == mi \in {"nil", "set"}
+ViewRangeExact == \A v \in Viewers : vpc[v] = "done" => visited[v] = MapKeys
 =============================================================================
